@@ -4,8 +4,6 @@
 From Coq Require Import Sorting.Sorted.
 From Verif Require Import ListX DCH.
 
-Definition pt := (Z * Z)%type.
-Definition xlt (a b : pt) : Prop := fst a < fst b.
 Definition xgt (a b : pt) : Prop := fst b < fst a.
 
 (* ---- orientation lemmas -------------------------------------------------------------- *)
@@ -377,9 +375,6 @@ Section Global.
 End Global.
 
 (* ---- the theorem ------------------------------------------------------------------------------ *)
-Definition not_lower_1d (pts : list pt) (q : pt) : Prop :=
-  exists a b, In a pts /\ In b pts /\ fst a < fst q /\ fst q < fst b /\ 0 <= cross a b q.
-
 Lemma not_lower_1d_b_spec pts q : not_lower_1d_b pts q = true <-> not_lower_1d pts q.
 Proof.
   unfold not_lower_1d_b, not_lower_1d. rewrite existsb_exists. split.
